@@ -198,7 +198,15 @@ class Check:
         s.solver_s += r['solver_s']
         s.obligations += r['paths']
         if r['aborted'] and not (f.witness and r['aborted'] == 'witness'):
-            s.problems.append('%s: exploration stopped early (%s): bound not covered' % (f.name, r['aborted']))
+            if s.tier == 'thorough' and f.tier == 'thorough' and r['aborted'] in ('time limit', 'path limit') and r['paths'] > 0:
+                # the deepest families may run into their budget: the property held on everything explored (exit status
+                # unaffected), but the bound stated for the family is NOT claimed as exhausted, and the evidence says so
+                part['bound_exhausted'] = False
+                s.bounds.append('NOT EXHAUSTED: family %s stopped at its %s after %d completed paths (%d forks); its bound is explored only in part'
+                                % (f.name, r['aborted'], r['paths'], r['forks']))
+                print('NOTE %s: %s: stopped at its %s after %d paths - bound explored in part, nothing violated' % (s.prop, f.name, r['aborted'], r['paths']))
+            else:
+                s.problems.append('%s: exploration stopped early (%s): bound not covered' % (f.name, r['aborted']))
         if r['ninconclusive']:
             s.problems.append('%s: %d inconclusive path(s), e.g. %s' % (f.name, r['ninconclusive'], r['inconclusive'][0]))
         if r['paths'] == 0 and not r.get('feasibility_undecided') and not r['viol'] and not f.witness:
